@@ -392,6 +392,13 @@ func configs(quick bool) []Config {
 			// two modified rules with the same statistic parameters in one load (standalone window, and the default)
 			out = append(out, Config{G: g.g, Rules: []RuleSpec{{3, g.kinds[5], false}, {1, g.kinds[5], false}}, T0: t0, ReloadT: 2, ReloadAll: true})
 			out = append(out, Config{G: g.g, Rules: []RuleSpec{{3, 0, false}, {1, 0, false}}, T0: t0, ReloadT: 2, ReloadAll: true})
+			// (once per geometry) a clock that has just started: windows reaching back before time zero
+			if t0 == g.t0s[0] {
+				near := int64(g.g.ArrIntervalMs)/100 + 3 // 3 ms and 103 ms: inside the first bucket, not the instant 0 itself
+				for _, k := range g.kinds {
+					out = append(out, Config{G: g.g, Rules: []RuleSpec{{2, k, false}}, T0: near})
+				}
+			}
 			// associated-resource rules (the referenced resource has its own traffic)
 			for _, k := range g.kinds {
 				out = append(out, Config{G: g.g, Rules: []RuleSpec{{2, k, true}}, T0: t0})
